@@ -34,6 +34,7 @@ type State struct {
 	defers    []deferred
 	ghost     map[string]Value // named ghost variables
 	priv      []privCell       // variable cells of this activation that no other code can reach yet
+	epoch     int              // >0: everything not yet materialised was havocked (unknown call) at this epoch
 }
 
 type privCell struct {
@@ -42,7 +43,7 @@ type privCell struct {
 }
 
 func (s *State) clone() *State {
-	n := &State{pc: s.pc, allocBase: s.allocBase, allocN: s.allocN}
+	n := &State{pc: s.pc, allocBase: s.allocBase, allocN: s.allocN, epoch: s.epoch}
 	n.locals = make(map[interface{}]Value, len(s.locals))
 	for k, v := range s.locals {
 		n.locals[k] = v
@@ -66,6 +67,13 @@ func (s *State) assume(c *Node) { s.pc = And(s.pc, c) }
 // heap returns the current array term for a heap; creates the initial symbolic one on demand.
 func (e *Exec) heap(s *State, name, sortS string) *Node {
 	if h, ok := s.heaps[name]; ok {
+		return h
+	}
+	if s.epoch > 0 && !e.v.immutableHeap(name) {
+		// first touched after a call that may have changed everything: unrelated to the entry heap
+		h := TS.Const(fmt.Sprintf("heapE%d:%s", s.epoch, sanitize(name)), sortS)
+		e.heapSorts[name] = sortS
+		s.heaps[name] = h
 		return h
 	}
 	// initial version shared by all states of this execution (same entry heap)
@@ -590,6 +598,14 @@ func (e *Exec) mergeStates(ss []*State) *State {
 		out.allocN = 0
 		out.pc = And(out.pc, And(cs...))
 	}
+	// havoc epoch of heaps not materialised yet
+	for _, s := range live {
+		if s.epoch != out.epoch {
+			epochCounter++
+			out.epoch = epochCounter
+			break
+		}
+	}
 	// private cells: intersection
 	{
 		var keep []privCell
@@ -679,3 +695,5 @@ func (e *Exec) heap0Name(name string) string {
 	}
 	return "heap0:" + sanitize(name)
 }
+
+var epochCounter int
